@@ -25,6 +25,7 @@ pub enum KindId {
     MappedGapped,
     U8,
     Io,
+    IoFaulty,
     WithContext,
     WithContextMb,
     MapSpan,
@@ -44,6 +45,7 @@ impl KindId {
             KindId::MappedGapped => "Input::map(gapped)",
             KindId::U8 => "&[u8]",
             KindId::Io => "IoInput",
+            KindId::IoFaulty => "IoInput(reader with short reads and interrupts)",
             KindId::WithContext => "with_context",
             KindId::WithContextMb => "with_context(multibyte)",
             KindId::MapSpan => "map_span",
@@ -53,7 +55,7 @@ impl KindId {
     }
     pub fn from_name(s: &str) -> Option<KindId> {
         use KindId::*;
-        [Str, StrMb, Slice, Stream, BoxedStream, Mapped, MappedGapped, U8, Io, WithContext, WithContextMb, MapSpan, Array3, Bytes].into_iter().find(|k| k.name() == s)
+        [Str, StrMb, Slice, Stream, BoxedStream, Mapped, MappedGapped, U8, Io, IoFaulty, WithContext, WithContextMb, MapSpan, Array3, Bytes].into_iter().find(|k| k.name() == s)
     }
 }
 
